@@ -1,12 +1,13 @@
 # configuration of ./check for property C04 (see props_config.py)
 CONFIG = {'gen': ['SmbCommands'],
- 'drivers': ['Smb', 'SmbDialects'],
+ 'drivers': ['Smb'],
  'rule': 'cases = for each of the 114 command structures reachable from the request/response factories: field assignments generated from '
          'the extracted programs (length/count fields made to agree with their buffers; boundary-biased integers; byte-distinct values; '
-         'nested values in their domain; every buffer format where Marshal sets none) -> marshal, unmarshal into a fresh command, compare '
-         'every field, re-marshal, compare bytes (smb.rt); complement one fixed-width field and compare the changed byte range with its '
-         'slot (smb.slot); unconstrained assignments (tie only). distinct = distinct line; non-trivial = the implementation produced a '
-         'value In half of the smb.rt cases the bytes are decoded twice into the same command object (the second decode must show the second message only).',
+         'nested values in their domain; every buffer format where Marshal sets none; for AndX commands an AndX block set through SetAndX '
+         'in two cases of three) -> marshal, unmarshal into a fresh command, compare every field and the AndX block, re-marshal, compare '
+         'bytes (smb.rt); complement one fixed-width field and compare the changed byte range with its slot (smb.slot); unconstrained '
+         'assignments (tie only). distinct = distinct line; non-trivial = the implementation produced a value In half of the smb.rt cases '
+         'the bytes are decoded twice into the same command object (the second decode must show the second message only).',
  'assumptions': ['reflect-based field assignment in the harness sets exactly the exported fields of the command structure',
                  "the factories' constructors (New…() + Init()) give the initial field values passed to the model as env0"],
  'trusted': ['tools/extract/smb_commands.go (statement-by-statement translation of the 115 Marshal/Unmarshal bodies into the command IR; '
@@ -14,22 +15,25 @@ CONFIG = {'gen': ['SmbCommands'],
              'Go slice semantics incl. capacity of Data.Bytes and of the stream built by GetBytesStream (runtime growth policy 8,16,…,512) '
              'as modelled in SmbIR/SmbCmd',
              'nested wire types through the C06 models (Manticore/Model/C06.lean, SmbCodecs adapters)'],
- 'technique': 'Lean 4: generic round-trip theorem over the command IR (induction over programs) + kernel-decided static predicates (Mirror, known-finding classification) over marshal/unmarshal programs regenerated '
-              'from /repo on every run by a go/ast translator; executable IR semantics tied to the Go code by differential correspondence '
-              'on all 114 commands; round-trip oracle on the same inputs',
-'level_text': 'The Marshal and Unmarshal bodies of all 115 command structures are re-translated from /repo into a small imperative IR on '
-               'every run; the kernel decides (decide +kernel) that exactly 83 structures satisfy Mirror (same slots, order, widths, byte '
+ 'technique': 'Lean 4: generic round-trip theorem over the command IR (induction over programs) + kernel-decided static predicates '
+              '(Mirror, known-finding classification) over marshal/unmarshal programs regenerated from /repo on every run by a go/ast '
+              'translator; executable IR semantics tied to the Go code by differential correspondence on all 114 commands; round-trip '
+              'oracle on the same inputs',
+ 'level_text': 'The Marshal and Unmarshal bodies of all 115 command structures are re-translated from /repo into a small imperative IR on '
+               'every run; the kernel decides (decide +kernel) that exactly 90 structures satisfy Mirror (same slots, order, widths, byte '
                'order, length dependencies; no field changed after it is emitted; offset reset between blocks; lengths read before their '
-               'buffers; guards no larger than the reads they protect; every declared field on the wire) and that the structural '
-               'round-trip defects are exactly the 26 recorded ones (non_mirror_commands, known_roundtrip_findings, command_count). The '
-               'generic soundness theorem is proved for all field values: mirror_roundtrip (Mirror c -> LawfulCodecs C T -> consistent C c '
-               'v -> decodeCmd (encodeCmd v) = ok d with every declared field equal to the sender after Marshal), with its layers '
-               'marshal_is_layout / unmarshal_reads_layout, the re-encoding corollary mirror_reencode, slot_locality, the instance '
-               'std_lawful for the C06 models, and smb_roundtrip / smb_reencode for the 83 regenerated Mirror commands. The IR semantics '
-               '(runM/runU/encodeCmd/decodeCmd) is executed by the driver on the same field assignments as the real code for all 114 '
-               'factory-reachable commands, and the real code is compared with the round-trip specification (decode(encode v) = v, '
-               're-encode identical, slot locality) on internally consistent assignments. For the 32 non-mirror commands the round trip '
-               'is decided by the correspondence runs only.',
+               'buffers; guards no larger than the reads they protect; every declared field on the wire; for the AndX commands the AndX '
+               'block read from the head of the parameter stream and exactly its four bytes cut off before the first field: andx_consumed) '
+               'and that the structural round-trip defects are exactly the 15 recorded ones (non_mirror_commands, '
+               'known_roundtrip_findings, command_count). The generic soundness theorem is proved for all field values: mirror_roundtrip '
+               '(Mirror c -> LawfulCodecs C T -> consistent C c v -> decodeCmd (encodeCmd v) = ok d with every declared field, and the '
+               'AndX block of an AndX command, equal to the sender after Marshal), with its layers marshal_is_layout / '
+               'unmarshal_reads_layout, the re-encoding corollary mirror_reencode, slot_locality, the instance std_lawful for the C06 '
+               'models, and smb_roundtrip / smb_reencode for the 90 regenerated Mirror commands (10 of the 16 AndX commands). The IR '
+               'semantics (runM/runU/encodeCmd/decodeCmd) is executed by the driver on the same field assignments as the real code for all '
+               '114 factory-reachable commands, and the real code is compared with the round-trip specification (decode(encode v) = v, '
+               're-encode identical, slot locality) on internally consistent assignments. For the 25 non-mirror commands the round trip is '
+               'decided by the correspondence runs only.',
  'level_note': 'Trusted: Lean kernel; axioms propext, Classical.choice, Quot.sound; the extractor and the IR semantics are tied to the Go '
                'code by differential testing (bounded); C06 models of nested types; known findings are recognised by Lean predicates on '
                'the extracted programs, one key per command.'}
